@@ -43,6 +43,13 @@ def cases(draw, max_nodes):
     if draw(st.sampled_from([True, False, False])):
         cfg["workers"] = len(spec["nodes"]) + draw(st.integers(1, 3))
     case = {"spec": spec, "cfg": cfg, "sched": draw(harness.schedules()), "registry": use_reg}
+    pure = [i for i, nd in enumerate(spec["nodes"]) if nd["k"] == "src" and specs.src_kind(nd) == "pure"]
+    if use_reg and pure and draw(st.integers(0, 2)) == 0:
+        # the same store object is the source of two nodes (two readers of one file), and/or its modified-time
+        # query fails: whatever the stale check shares between the two examinations, the run still ends
+        case["dup_source"] = {"src": draw(st.sampled_from(pure)), "copies": draw(st.integers(1, 3)),
+                              "mt_fails": draw(st.sampled_from([True, True, False]))}
+        cfg["stale_workers"] = draw(st.sampled_from([None, 2, 3, 4]))
     if draw(st.integers(0, 9)) == 0:
         # a bundled progress display whose output sink fails persistently (unwritable report file): whatever the
         # display does about it, run still returns and the display's thread has exited
@@ -99,6 +106,12 @@ def check_case(ctx, case, record=True):
     w = world.World(spec, registry=case["registry"], pause=harness.pause_for(sc))
     if case["registry"]:
         w.init_sources()
+    dup = case.get("dup_source")
+    if dup:
+        for _ in range(dup["copies"]):
+            w.registry.source(w.plan, w.stores[dup["src"]])
+        if dup["mt_fails"]:
+            w.flaky_ops = {("mt", dup["src"]): 10 ** 6}
     mark = {}
 
     def after(out):
@@ -155,6 +168,8 @@ def check_case(ctx, case, record=True):
             cl.append("thread_start_refused")
         if sink:
             cl.append("failing_display_sink:" + sink)
+        if dup:
+            cl.append("one_store_several_source_nodes" + ("+mt_query_fails" if dup["mt_fails"] else ""))
         if case.get("tcycle"):
             cl.append("cycle_closed_by_transform_physical:" + str(getattr(w, "tcycle_made", None)))
         nt = (workers >= 2 and nfail > 0) or workers > len(spec["nodes"]) or cyclic or bool(case.get("tcycle"))
